@@ -31,7 +31,8 @@ type c06Case struct {
 
 func genC06(t *rapid.T) c06Case {
 	g := &fgen{t: t, maxAtoms: 5, maxDepth: 3, maxWidth: 3, budget: 8, quant: true, edges: 3, multiPC: true, constants: true}
-	p := &m.Profile{Name: "c06"}
+	// the policy's package name is derived from the profile name: whatever is derived is the same in every process
+	p := &m.Profile{Name: pick(t, []string{"c06", "c06", "Política de APIs", "プロファイル", "naïve-rules", "Ünïcode ✓"}, "pname")}
 	nv := rapid.IntRange(1, 3).Draw(t, "nv")
 	for i := 0; i < nv; i++ {
 		g.budget = 7
@@ -63,7 +64,7 @@ func genC06(t *rapid.T) c06Case {
 		sm.Conflicts = rapid.Bool().Draw(t, "conflicts")
 		data = sm.Attach(gr).JSONLD(genLDOpts(t, 0))
 	}
-	c := c06Case{Profile: p.ToY().Print(m.YOpts{}), Data: data, Procs: rapid.IntRange(0, 3).Draw(t, "procs") == 0 || pathsUsed}
+	c := c06Case{Profile: p.ToY().Print(m.YOpts{}), Data: data, Procs: rapid.IntRange(0, 3).Draw(t, "procs") == 0 || pathsUsed || p.Name != "c06"}
 	// a long enumeration (whatever the translator does with long lists must come out the same in every process)
 	if rapid.IntRange(0, 4).Draw(t, "longList") == 0 {
 		c.Profile = appendValidation(c.Profile, "vlong", bigListValidation(rapid.SampledFrom([]int{31, 32, 33, 64, 100, 300}).Draw(t, "longListLen"), "p0"))
